@@ -139,3 +139,43 @@ func harnessC10MemOffsetsAndIsolation() {
 	vAssert(len(evs1) == 1, "own-events-visible")
 	vCover("loaded")
 }
+
+//verif:entry property=C10 tier=both bounds="memory store, log length n<=N: a stream from start index k1 and, consumed completely while the first one stands at item #nestAt, a second stream from start index k2 (streams are independent: both yield exactly what Read returns); early stop of the inner stream symbolic" cover="streams-done" N_quick=3 N_thorough=5
+func harnessC10MemStreams() {
+	N := vParam("N", 3)
+	ctx := context.Background()
+	st := NewMemoryStore()
+	n := vInt(0, N)
+	recs := c10Fill(st, n)
+	start := func(k int) Offset {
+		if k > 0 {
+			return recs[k-1].off
+		}
+		return OffsetOldest
+	}
+	k1, k2 := vInt(0, n), vInt(0, n)
+	nestAt := vInt(0, N)
+	stopInner := vInt(1, N+1) // the inner consumer stops after this many items (N+1: never)
+	i := 0
+	for ev, serr := range st.ReadStream(ctx, start(k1)) {
+		vAssert(serr == nil, "stream-ok")
+		vAssert(k1+i < n && c10Same(ev, recs[k1+i]), "stream-same-sequence")
+		if i == nestAt {
+			j := 0
+			for ev2, serr2 := range st.ReadStream(ctx, start(k2)) {
+				vAssert(serr2 == nil, "stream-ok")
+				vAssert(k2+j < n && c10Same(ev2, recs[k2+j]), "stream-same-sequence")
+				j++
+				if j == stopInner {
+					break
+				}
+			}
+			if stopInner > n-k2 {
+				vAssert(j == n-k2, "stream-same-length")
+			}
+		}
+		i++
+	}
+	vAssert(i == n-k1, "stream-same-length")
+	vCover("streams-done")
+}
